@@ -502,6 +502,8 @@ def model_eval(progs, what):
         t = to_coq(p["e"])
         if what == "compile":
             exprs.append("model_compile %s" % t)
+        elif what == "renames":
+            exprs.append("model_renames %s" % t)
         else:
             fn = "model_run" if what == "run" else "ref_run"
             exprs.append("%s %s %s %d %s %s" % (fn, coq_fault(p["fault"]), COQ_SUB, p.get("fuel", 8),
@@ -568,6 +570,7 @@ def differential(chk, progs, judge=None):
                "u0.. = %r" % (vlib.REPO, src, p["fault"], [hy_val(v) for v in p["vals"]]))
         inp = {"program": src, "fault": {str(k): cls_name(c_) for k, c_ in p["fault"].items()},
                "initial": [hy_val(v) for v in p["vals"]]}
+        inp.update(p.get("extra", {}))
         if c[0] != "OK":
             chk.case(src, nontrivial=False)
             chk.fail("compile-error", inp, c[1], "compiles", how)
@@ -600,3 +603,28 @@ def differential(chk, progs, judge=None):
                 key = judge(p, src, ir, f)
             if key is not None:
                 chk.fail(key, dict(inp, expr=p["e"]), ir, f, how)
+
+
+def has_empty_else_try(e):
+    """a try with handlers and an empty (else) clause somewhere in the program"""
+    stack = [e]
+    while stack:
+        x = stack.pop()
+        if isinstance(x, tuple) and x and x[0] == "try" and x[2] and x[3] is not None and len(x[3]) == 0:
+            return True
+        if isinstance(x, tuple) and x and isinstance(x[0], str):
+            stack.extend(x[1:])
+        elif isinstance(x, (list, tuple)):
+            stack.extend(x)
+    return False
+
+
+def register_matchers(chk):
+    chk.matchers["result-rename-fired"] = lambda rec, params: rec["input"].get("renames") is True
+    chk.matchers["try-empty-else-with-handlers"] = lambda rec, params: rec["input"].get("empty_else") is True
+
+
+def annotate(progs):
+    rn = model_eval(progs, "renames")
+    for p, r in zip(progs, rn):
+        p["extra"] = {"renames": r == "true", "empty_else": has_empty_else_try(p["e"])}
